@@ -166,7 +166,7 @@ def rand_config_list(rng, kmin=3, kmax=8, anti_list_p=0.2, ga_p=0.4, excl_p=0.0)
 
 def spec_key(s):
     return (s["name"], s["pattern"], tuple(s.get("group_atoms", ())), tuple(s.get("anti_pattern", ())),
-            tuple(s.get("len_exclude_nodes", ("R",))))
+            tuple(s.get("len_exclude_nodes", ("R",)))) + ((("depth", s["depth"]),) if s.get("depth") is not None else ())
 
 
 def has_anti(specs):
@@ -488,6 +488,8 @@ def make_configs(specs):
             kw["anti_pattern"] = list(s["anti_pattern"])
         if "len_exclude_nodes" in s:
             kw["len_exclude_nodes"] = list(s["len_exclude_nodes"])
+        if "depth" in s:
+            kw["depth"] = s["depth"]
         out.append(FGConfig(**kw))
     return out
 
@@ -946,9 +948,10 @@ def graph_term_of(pattern):
 def cfg_term(s, label=None):
     ga = "None" if "group_atoms" not in s else "(Some %s)" % zlist(s["group_atoms"])
     excl = s.get("len_exclude_nodes", ["R"])
-    return "(fgconfig_init %s %s %s %s (%s : list graph) None %s)" % (
+    depth = "None" if s.get("depth") is None else "(Some %s)" % ct.z(s["depth"])
+    return "(fgconfig_init %s %s %s %s (%s : list graph) %s %s)" % (
         ct.s(label if label is not None else s["name"]), ct.s(s["pattern"]), graph_term_of(s["pattern"]), ga,
-        ct.lst([graph_term_of(a) for a in s.get("anti_pattern", [])]), slist(excl))
+        ct.lst([graph_term_of(a) for a in s.get("anti_pattern", [])]), depth, slist(excl))
 
 
 def cfgs_term(specs, labelled=False):
